@@ -61,7 +61,7 @@ ASSUMPTIONS = [
     "'connected' = reachable from a bottom-layer (z index 0) material cell through face-adjacent material cells; background 'enclosed' = not reachable from the top layer or the four side faces through face-adjacent background cells",
     "the completeness direction (every reachable cell is kept), single-layer designs and connect_holes_and_structures are NOT proved: bounded stand-in on the designs listed in LEVEL_NOTE",
 ]
-MIN_OBLIGATIONS = {"quick": 600, "thorough": 600}
+MIN_OBLIGATIONS = {"quick": 300, "thorough": 300}  # after the fixpoint-loop fix the flood fills no longer fork on max(shape)
 LEVEL_TEXT = "Deductive proof, for all grid shapes >= 3^3 and all binary designs, that one real dilation pass preserves 'subset of every mask-closed set containing the seeds', stays in the mask, is extensive/monotone and adds every face neighbour; composed through the real compute_polymer_connection, compute_air_connection, remove_floating_polymer and RemoveFloatingMaterial.__call__ this gives: only connected material is kept, nothing is added"
 LEVEL_NOTE = "completeness (fixpoint reached in max(shape) passes), Nz == 1 and connect_holes_and_structures are bounded only: all y-constant designs on 3x3x3 and 4x3x4, seeded random designs on shapes up to 8x8x4 (thorough 10x10x6), serpentine/spiral/snake templates up to 9 cells per axis (thorough 15), real code under real JAX against scipy.ndimage.label"
 BOUNDED_RULE = "real remove_floating_polymer / RemoveFloatingMaterial / connect_holes_and_structures / ConnectHolesAndStructures under real JAX on enumerated, seeded-random and adversarial designs; oracle = scipy.ndimage.label with face connectivity"
